@@ -790,6 +790,10 @@ func (w *world) byzAction() {
 			blk = w.byzBlock(h)
 			hash = blk.Id
 		}
+		if w.nilOK && r.Intn(2) == 0 {
+			blk = nil
+			w.rep.count("byz:NV-without-block")
+		}
 		m := &aMsg{Kind: "NV", NVType: 4, NVInst: worldInst, NVHeight: h, NVView: nv, Votes: votes, Snd: aSig{ld, true}, Ref: ref(1, nv, hash), PPSnd: aSig{ld, true}, Block: blk}
 		for _, n := range w.honest {
 			if r.Intn(4) != 0 {
@@ -1250,6 +1254,49 @@ func (w *world) doubleNewViewScript() {
 		}
 	}
 	for k := 0; k < 60 && len(w.pool) > 0; k++ {
+		p := w.pool[0]
+		w.pool = w.pool[1:]
+		w.deliverG(w.byId[p.to], p.msg, p.raw, p.genuine)
+	}
+}
+
+// missingBlockScript (lenient consumer only): the correct members vote for view 1; its Byzantine leader answers with a
+// well-formed NEW_VIEW whose block is missing; whatever the members send is delivered. A block-less proposal may be
+// stored but can never be prepared on or committed, and nothing may panic (C12).
+func (w *world) missingBlockScript() {
+	for _, n := range w.honest {
+		w.sync(n, nil)
+	}
+	for _, id := range []uint64{0, 2, 3} {
+		w.election(w.byId[id], 1, 0)
+	}
+	var votes []aVote
+	seen := map[uint64]bool{}
+	for _, m := range w.history {
+		if m.Kind == "VC" && m.Vote.Height == 1 && m.Vote.View == 1 && !seen[m.Vote.Snd.Id] && m.Vote.Snd.Ok {
+			votes = append(votes, cloneVote(*m.Vote))
+			seen[m.Vote.Snd.Id] = true
+		}
+	}
+	if len(votes) < 3 {
+		w.rep.count("world:directed-missing-block-setup-failed")
+		return
+	}
+	nv := &aMsg{Kind: "NV", NVType: 4, NVInst: worldInst, NVHeight: 1, NVView: 1, Votes: votes, Snd: aSig{1, true},
+		Ref: aRef{1, worldInst, 1, 1, 2999501}, PPSnd: aSig{1, true}, Block: nil}
+	for _, to := range []uint64{0, 2, 3} {
+		w.inject(w.byId[to], nv.clone(), "byz-NV-without-block")
+	}
+	for k := 0; k < 80 && len(w.pool) > 0; k++ {
+		p := w.pool[0]
+		w.pool = w.pool[1:]
+		w.deliverG(w.byId[p.to], p.msg, p.raw, p.genuine)
+	}
+	// the Byzantine leader adds its own PREPARE-less support: COMMITs are what completes a quorum of three with two correct ones
+	for _, to := range []uint64{0, 2, 3} {
+		w.inject(w.byId[to], &aMsg{Kind: "C", Ref: aRef{3, worldInst, 1, 1, 2999501}, Snd: aSig{1, true}, ShareOk: true}, "byz-C")
+	}
+	for k := 0; k < 80 && len(w.pool) > 0; k++ {
 		p := w.pool[0]
 		w.pool = w.pool[1:]
 		w.deliverG(w.byId[p.to], p.msg, p.raw, p.genuine)
